@@ -381,3 +381,71 @@ func rabRun(x *hx.Ctx, h hist) {
 		x.Err("RecoverSecret with t-1 deals", err)
 	}
 }
+
+// rabUniformBadT: a malicious dealer that consistently deals an OUT-OF-RANGE threshold to every verifier and then
+// "justifies" every complaint by revealing that very deal. No verifier may accept such a justification, nobody may
+// end up with a certified deal.
+func rabUniformBadT(x *hx.Ctx, n, t, badT int) {
+	s := x.S.(vss.Suite)
+	var vk []kyber.Scalar
+	var vp []kyber.Point
+	for i := 0; i < n; i++ {
+		k := s.Scalar().Pick(s.RandomStream())
+		vk, vp = append(vk, k), append(vp, s.Point().Mul(k, nil))
+	}
+	dk := s.Scalar().Pick(s.RandomStream())
+	dp := s.Point().Mul(dk, nil)
+	dealer, err := vss.NewDealer(s, dk, s.Scalar().Pick(s.RandomStream()), vp, uint32(t))
+	if !x.NoErr("NewDealer", err) {
+		return
+	}
+	vs := make([]*vss.Verifier, n)
+	sent := make([]*vss.Deal, n)
+	resp := make([]*vss.Response, n)
+	for i := range vs {
+		vs[i], err = vss.NewVerifier(s, vk[i], dp, vp)
+		x.NoErr("NewVerifier", err)
+		pd, _ := dealer.PlaintextDeal(i)
+		d := rabCopyDeal(pd)
+		d.T = uint32(badT)
+		sent[i] = d
+		e, err := dealer.VerifEncryptDeal(i, d)
+		x.NoErr("VerifEncryptDeal", err)
+		r, err := vs[i].ProcessEncryptedDeal(e)
+		if err != nil {
+			x.Outcome(fmt.Sprintf("deal with T=%d refused outright by %d", badT, i), true)
+			continue
+		}
+		x.Require(fmt.Sprintf("verifier %d never approves a deal with T=%d", i, badT), !r.Approved)
+		resp[i] = r
+	}
+	for i, r := range resp {
+		if r == nil {
+			continue
+		}
+		for to := 0; to < n; to++ {
+			if to != i && resp[to] != nil {
+				cp := *r
+				_ = vs[to].ProcessResponse(&cp)
+			}
+		}
+	}
+	for i, r := range resp {
+		if r == nil {
+			continue
+		}
+		j := &vss.Justification{SessionID: r.SessionID, Index: uint32(i), Deal: sent[i]}
+		j.Signature, _ = schnorr.Sign(s, dk, j.Hash(s))
+		for to := 0; to < n; to++ {
+			if resp[to] == nil {
+				continue
+			}
+			x.Err(fmt.Sprintf("justification revealing the out-of-range deal of %d refused by %d", i, to), vs[to].ProcessJustification(j))
+		}
+	}
+	for i := range vs {
+		vs[i].SetTimeout()
+		x.Require(fmt.Sprintf("verifier %d: a deal with T=%d is never certified", i, badT), !vs[i].DealCertified())
+		x.Require(fmt.Sprintf("verifier %d: no deal handed out", i), vs[i].Deal() == nil)
+	}
+}
